@@ -209,8 +209,8 @@ fn main() {
     let scr = Scratch::new(&out);
     let deep = a.thorough();
     let mut c = Ctx { run, scr, rng, deep };
-    let nsmall = if deep { 60 } else { 12 };
-    let big = if deep { 3000 } else { 500 };
+    let nsmall = if deep { 60 } else { 30 };
+    let big = if deep { 3000 } else { 800 };
     c.run.rule = format!(
         "files written by the real save() of all four table kinds (0,1,2,3 rows, {nsmall} random tables of up to 5 rows, one of ~60 and one of ~{big} rows per kind; transitions for preflop/flop/turn and the empty river file): for files up to 420 bytes EVERY prefix length 0..len, otherwise bytes 0..40, every row boundary, sampled offsets inside rows (first/second/last byte and random), the last 80 bytes, and the complete file; each prefix replaces the file and is loaded by the real load() under catch_unwind; a case = one (file, cut), non-trivial when the table has at least one row; distinct by (table content, cut)");
     c.run.exhaustive = false;
